@@ -739,6 +739,13 @@ func gen(c *core.Ctx) error {
 				sort.Ints(cs)
 				cutsList = append(cutsList, cs)
 			}
+			if len(all) > 1 && len(all) <= 160 { // one byte per frame: every value spans as many frames as it has bytes
+				var cs []int
+				for p := 1; p < len(all); p++ {
+					cs = append(cs, p)
+				}
+				cutsList = append(cutsList, cs)
+			}
 			for _, cs := range cutsList {
 				desc := map[string]interface{}{"kind": "dec", "enc": enc, "vals": vs, "cuts": cs}
 				decodeCase(c, enc, mock.Cut(all, cs), ops, exp, desc)
@@ -780,6 +787,33 @@ func gen(c *core.Ctx) error {
 					decodeCaseT(c, enc, fr, specTerm(enc, vs), opsFor(vs), exp, desc)
 					c.Nontrivial(fmt.Sprint("large", enc, kind, n))
 				}
+			}
+		}
+		// 3b. each Put* at its flush threshold: the buffer holds n bytes, then one more value; the
+		// writer's own framing (a double may straddle two frames) is compared with the model's
+		for _, n := range []int{16367, 16368, 16369, 16374, 16375, 16376, 16377, 16382, 16383, 16384, 16385} {
+			nexts := []val{{Kind: "int", I: -2}, {Kind: "char", I: 0x41}, {Kind: "str", B: []byte("ab")}, {Kind: "strb", B: []byte("abcdefg")},
+				{Kind: "double", Bits: 0x400921fb54442d18}, {Kind: "bytes", B: []byte{1, 2, 3}}}
+			for k, nx := range nexts {
+				if c.Quick() && (n+k)%2 == 0 && nx.Kind != "int" && nx.Kind != "char" && nx.Kind != "double" {
+					continue
+				}
+				vs := []val{{Kind: "bytes", Off: n % 89, Len: n}, nx, {Kind: "char", I: 0x7e}}
+				fr, ok := encodeCase(c, enc, vs)
+				if !ok {
+					continue
+				}
+				c.Count("enc-threshold-" + nx.Kind)
+				if !bytes.Equal(concat(fr), specEncode(enc, vs)) {
+					continue
+				}
+				var exp []gres
+				for _, x := range vs {
+					exp = append(exp, expect(x))
+				}
+				desc := map[string]interface{}{"kind": "dec-own-framing", "enc": enc, "vals": vs}
+				decodeCaseT(c, enc, fr, specTerm(enc, vs), opsFor(vs), exp, desc)
+				c.Nontrivial(fmt.Sprint("threshold", enc, n, nx.Kind))
 			}
 		}
 		// 4. malformed decode inputs
